@@ -74,6 +74,8 @@ def confirm(chunk, shape, e, viol, _L):
         return None, txt
     end, outhex, gc = int(m.group(1)), m.group(2), int(m.group(3))
     if viol['cls'] == 'swap-end':
+        fam = dict((s.name, s) for s in chunk['shapes'])
+        viol['fingerprint'] = R.swap_fingerprint(fam[shape])
         return end != viol['expected_end'], txt
     if viol['cls'] == 'swap-image':
         n = viol['claim_len']
